@@ -168,26 +168,28 @@ NumToken(s, i) ==
 -----------------------------------------------------------------------------
 (* Correct rounding (IEEE 754 round-to-nearest, ties-to-even) of M * 10^E, M > 0, to binary64. *)
 (* The result is the 64-bit pattern of the positive double as a BigInt, or Overflow.            *)
-(* With v = num/den:  choose the binary exponent e (>= -1074) such that q = floor(v / 2^e) has  *)
-(* exactly 53 bits (fewer for subnormals, where e = -1074), round q by the remainder, and       *)
+(* With v = M * 10^E:  choose the binary exponent e (>= -1074) such that q = floor(v / 2^e) has  *)
+(* exactly 53 bits (fewer for subnormals, where e = -1074), round q by the discarded part, and  *)
 (* assemble  bits = (e + 1074) * 2^52 + q  (this formula also covers the carry into the next   *)
-(* binade and the step from subnormal to normal).                                               *)
+(* binade and the step from subnormal to normal).  One exact division is made, at an exponent   *)
+(* e0 < e, giving q0 = floor(v / 2^e0) and whether it was exact; q and the discarded part are    *)
+(* then q0 div 2^(e-e0) and q0 mod 2^(e-e0).                                                     *)
 TopDigits(n) == IF n < 10 THEN 1 ELSE IF n < 100 THEN 2 ELSE IF n < 1000 THEN 3 ELSE 4
 DecLen(m) == IF m = <<>> THEN 0 ELSE 4 * (Len(m) - 1) + TopDigits(m[Len(m)])
 
 Ten == FromInt(10)
+Five == FromInt(5)
 P52 == Pow2(52)
 InfBits == Mul(FromInt(2047), P52)
 Overflow == [neg |-> TRUE, m |-> <<1>>]     \* marker (never a bit pattern)
 
-(* floor(num * 2^(-sh) / den) and the comparison of twice the remainder with the divisor: <<q, -1|0|1>> *)
+(* <<floor(num * 2^(-sh) / den), remainder is zero>> *)
 ScaledDiv(num, den, sh) ==
   LET n2 == IF sh < 0 THEN Mul(num, Pow2(0 - sh)) ELSE num
       d2 == IF sh > 0 THEN Mul(den, Pow2(sh)) ELSE den
       qr == MDivMod(n2.m, d2.m)
-  IN <<qr[1], MCmp(MMulSmall(qr[2], 2), d2.m)>>
+  IN <<qr[1], qr[2] = <<>> >>
 
-Five == FromInt(5)
 FloatBits(M, E) ==
   LET dd == DecLen(M.m) + E        \* 10^(dd-1) <= v < 10^dd
   IN IF dd > 310 THEN Overflow
@@ -196,20 +198,23 @@ FloatBits(M, E) ==
        \* v = M * 10^E = (num / den) * 2^E  with the powers of five only (smaller numbers)
        LET num == IF E >= 0 THEN Mul(M, Pow(Five, E)) ELSE M
            den == IF E >= 0 THEN One ELSE Pow(Five, 0 - E)
-           \* estimate of floor(log2 v) from the decimal length; any estimate that makes q0 >= 1 is sound
+           \* lg estimates floor(log2 10^(dd-1)) to within one, so that q0 below has between 60 and 68 bits
            lg  == (((dd + 399) * 3322) \div 1000) - 1329
            e0  == lg - 62
-           q0  == ScaledDiv(num, den, e0 - E)[1]     \* floor(v / 2^e0)
-           b   == Len(MBits(q0))                     \* floor(log2 v) = e0 + b - 1   (q0 >= 1)
+           d0  == ScaledDiv(num, den, e0 - E)        \* q0 = floor(v / 2^e0)
+           q0  == d0[1]
+           b   == Len(MBits(q0))                     \* floor(log2 v) = e0 + b - 1
            e1  == e0 + b - 53
            e   == IF e1 < -1074 THEN -1074 ELSE e1
-           qc  == ScaledDiv(num, den, e - E)         \* q = floor(v / 2^e), remainder against one half
-           q   == qc[1]
+           sh  == e - e0                             \* >= 1 because b >= 54
+           qr  == MDivMod(q0, Pow2(sh).m)            \* q = floor(v / 2^e), low = the discarded bits of q0
+           q   == qr[1]
+           c   == MCmp(qr[2], Pow2(sh - 1).m)        \* discarded part against one half (exact only if d0[2])
            odd == q # <<>> /\ q[1] % 2 = 1
-           up  == qc[2] > 0 \/ (qc[2] = 0 /\ odd)
-           qr  == IF up THEN MAdd(q, <<1>>) ELSE q
-           bits == Add(Mul(FromInt(e + 1074), P52), [neg |-> FALSE, m |-> qr])
-       IN IF b = 0 THEN Assert(FALSE, "FloatBits: bad exponent estimate")
+           up  == c > 0 \/ (c = 0 /\ (~d0[2] \/ odd))
+           qu  == IF up THEN MAdd(q, <<1>>) ELSE q
+           bits == Add(Mul(FromInt(e + 1074), P52), [neg |-> FALSE, m |-> qu])
+       IN IF b < 54 THEN Assert(FALSE, "FloatBits: bad exponent estimate")
           ELSE IF Cmp(bits, InfBits) >= 0 THEN Overflow ELSE bits
 
 SignBit == Pow2(63)
